@@ -102,6 +102,18 @@ def main():
             ctx = harness.Ctx(prop, "quick", seed)
             if hasattr(module, "prepare"):
                 module.prepare(ctx)
+            with open(args.replay) as f:
+                rdata = json.load(f)
+            if rdata.get("crash"):
+                e = dict(os.environ, VERIF_SEED=str(rdata["seed"]))
+                out = os.path.join(tempfile.mkdtemp(prefix="osyverif_rep_"), "part.json")
+                p = subprocess.run([sys.executable, os.path.abspath(__file__), prop, "--tier", rdata["tier"], "--shard",
+                                    str(rdata["shard"]), "--nshards", str(rdata["nshards"]), "--partial-out", out], env=e)
+                if p.returncode < 0 or p.returncode in (134, 139):
+                    print(f"VIOLATION property={prop} replay={args.replay}")
+                    return 1
+                print(f"replay {args.replay}: worker finished with return code {p.returncode}")
+                return 0
             sub, case, r = ctx.replay_file(module, args.replay)
             unlisted = [rec for rec in r.records if ctx.findings.match(rec["signature"]) is None]
             for rec in r.records:
@@ -119,22 +131,17 @@ def main():
                 json.dump(part, f, default=repr)
             return 0
 
-        if args.tier == "quick":
-            part = run_shard(prop, "quick", seed, 0, 1)
-            from vlib import harness
-
-            merged = harness.merge_partials([part])
-            return finish(prop, "quick", seed, merged, time.time() - t0, 1)
-
-        # thorough: shard over worker processes
+        # every tier runs its shards in worker processes (quick: one worker), so that a crash of the code under
+        # test (segfault / abort in a numba kernel) is caught and reported instead of killing the check
+        nworkers = 1 if args.tier == "quick" else NWORKERS
         tmp = tempfile.mkdtemp(prefix="osyverif_par_")
         procs = []
-        for i in range(NWORKERS):
+        for i in range(nworkers):
             out = os.path.join(tmp, f"part{i}.json")
             e = dict(os.environ)
             e.setdefault("NUMBA_NUM_THREADS", "16")
-            p = subprocess.Popen([sys.executable, os.path.abspath(__file__), prop, "--tier", "thorough",
-                                  "--shard", str(i), "--nshards", str(NWORKERS), "--partial-out", out],
+            p = subprocess.Popen([sys.executable, os.path.abspath(__file__), prop, "--tier", args.tier,
+                                  "--shard", str(i), "--nshards", str(nworkers), "--partial-out", out],
                                  env=e, stdout=subprocess.PIPE, stderr=subprocess.PIPE, text=True)
             procs.append((p, out))
         parts = []
@@ -153,8 +160,20 @@ def main():
 
         merged = harness.merge_partials(parts) if parts else harness.merge_partials([])
         for i, rc, se in failed:
-            merged["harness_errors"].append(f"worker {i} exited {rc}: {se}")
-        return finish(prop, "thorough", seed, merged, time.time() - t0, NWORKERS)
+            if rc is not None and (rc < 0 or rc in (134, 139)):
+                # killed by a signal: the code under test crashed the interpreter on generated input
+                rel = os.path.join("replays", prop, f"crash-seed{seed}-shard{i}.json")
+                os.makedirs(os.path.join(HERE, "replays", prop), exist_ok=True)
+                with open(os.path.join(HERE, rel), "w") as f:
+                    json.dump({"property": prop, "crash": True, "seed": seed, "tier": args.tier, "shard": i,
+                               "nshards": nworkers, "returncode": rc, "stderr_tail": se[-1500:]}, f, indent=1)
+                merged["violations"].append({"sub": "*", "signature": ["process-crashed", f"signal={-rc if rc < 0 else rc}"],
+                                             "detail": f"worker {i} died with return code {rc} while running generated "
+                                                       f"cases (memory corruption / abort in the code under test): {se[-300:]}",
+                                             "replay": rel})
+            else:
+                merged["harness_errors"].append(f"worker {i} exited {rc}: {se}")
+        return finish(prop, args.tier, seed, merged, time.time() - t0, nworkers)
     except Exception:
         traceback.print_exc()
         print("HARNESS-ERROR: internal exception (see traceback); not a violation", file=sys.stderr)
